@@ -11,6 +11,7 @@ from typing import Any, Callable, Iterable
 
 from tree_sitter import Node
 
+from nix_manipulator.expressions.points import point_row
 from nix_manipulator.expressions.layout import comma, empty_line, linebreak
 
 _EMPTY_LINE_RE = re.compile(r"\n[ \t]*\n")
@@ -318,7 +319,7 @@ def _collect_comment_trivia(
             include_linebreak=include_linebreak,
         )
         comment_expr = Comment.from_cst(comment_node)
-        if allow_inline and comment_node.start_point.row == prev.end_point.row:
+        if allow_inline and point_row(comment_node.start_point) == point_row(prev.end_point):
             if not inline_requires_gap or comment_node.start_byte > prev.end_byte:
                 comment_expr.inline = True
         collected.append(comment_expr)
